@@ -197,8 +197,10 @@ Lemma oae_tail0 e from m c s :
     | AESnap _ _ p =>
       let (s, done) := set_transmission p s in
       if done && load_dump_ok s then
-        let s := send_next_idx from None false true (load_dump e true s) in
-        ae_commit c (Some (last_idx (log (nd s)))) s
+        let s := load_dump e true s in
+        let v := applied (nd s) in
+        let s := send_next_idx from (Some (v + 1)) false true s in
+        ae_commit c (Some v) s
       else if done then ae_commit c None (load_dump e true s) else ae_commit c None s
     | _ => s
     end).
@@ -234,8 +236,10 @@ Lemma oae_tailB e from m c s s0 : static (cf e) -> rel KB s s0 ->
     | AESnap _ _ p =>
       let (s, done) := set_transmission p s0 in
       if done && load_dump_ok s then
-        let s := send_next_idx from None false true (load_dump e true s) in
-        ae_commit c (Some (last_idx (log (nd s)))) s
+        let s := load_dump e true s in
+        let v := applied (nd s) in
+        let s := send_next_idx from (Some (v + 1)) false true s in
+        ae_commit c (Some v) s
       else if done then ae_commit c None (load_dump e true s) else ae_commit c None s
     | _ => s0
     end).
